@@ -379,7 +379,48 @@ def failure_key(case, why):
     return f"C18/{case['op']}"
 
 
+def translation_tie(ctx, out):
+    """Second tie to the source: re-translate the pure Rectangle methods from the repository's current
+    geometry.py into Gallina (harness/translate_rect.py, fail-closed) and let Coq prove each generated
+    definition equal to the hand-written model function (harness/gen/RectGenOk.v.in)."""
+    import shutil
+    import subprocess
+    from harness import translate_rect as tr
+    d = ctx.work / "gen"
+    d.mkdir(exist_ok=True)
+    res = {"methods": tr.METHODS, "translated": False, "proved_equal": False}
+    try:
+        text = tr.translate_file(core.REPO / "frame" / "geometry" / "geometry.py")
+        (d / "RectGen.v").write_text(text)
+        res["translated"] = True
+    except Exception as e:  # TranslationError or a syntax error in the source
+        res["error"] = f"{type(e).__name__}: {e}"
+    if res["translated"]:
+        shutil.copy(core.VERIF / "harness" / "gen" / "RectGenOk.v.in", d / "RectGenOk.v")
+        log = ""
+        ok = True
+        for f in ("RectGen.v", "RectGenOk.v"):
+            p = subprocess.run(["timeout", "600", "coqc", "-Q", str(core.COQ), "FrameModel", "-R", ".", "", f],
+                               cwd=d, stdout=subprocess.PIPE, stderr=subprocess.STDOUT, text=True)
+            log += p.stdout
+            if p.returncode != 0:
+                ok = False
+                break
+        closed = log.count("Closed under the global context")
+        res["proved_equal"] = ok and closed == 3
+        if not res["proved_equal"]:
+            res["error"] = log[-1500:]
+    out.extra["translation_tie"] = res
+    if not res["proved_equal"]:
+        out.disagreements.append({
+            "key": "C18/translation-tie", "explained": False,
+            "why": "the Rectangle methods re-translated from the current source are no longer proved equal to the model "
+                   "(or could not be translated): " + res.get("error", "")[:1500],
+            "case": {"file": "frame/geometry/geometry.py", "lemmas": "harness/gen/RectGenOk.v.in"}})
+
+
 def run(ctx, out, replay=None):
+    translation_tie(ctx, out)
     n = 3000 if ctx.quick() else 60000
     out.rule = ("random Rectangle method calls on lattice/dyadic rectangles; pairs drawn by relative configuration "
                 "(identical, edge, corner, nested, crossing, sliver, far); distinct by canonical hash of the case; "
